@@ -371,8 +371,11 @@ var installMu sync.Mutex
 func (s *Sched) Install() func() {
 	installMu.Lock()
 	vh.Install(s.handle)
+	var once sync.Once
 	return func() {
-		vh.Install(nil)
-		installMu.Unlock()
+		once.Do(func() {
+			vh.Install(nil)
+			installMu.Unlock()
+		})
 	}
 }
